@@ -534,3 +534,32 @@ def c15Verdicts (sc : Scenario) (t : List BOp) : Nat × List String :=
   go sc.ops t 0 0 []
 
 end EpdVerif.Big
+
+namespace EpdVerif.Big
+open EpdVerif
+
+/-! ## C10 on the 12.48in driver's own transport -/
+
+/-- D/C discipline and transfer sizes of one operation's trace: every transfer made with both D/C
+    lines low is a single byte (one command), every other transfer has BOTH lines high, no
+    transfer exceeds 4096 bytes -/
+def c10B (a : List String) (t : BOp) : List String :=
+  let site := s!"epd12in48b_v2/{a.headD "?"}"
+  t.evs.flatMap fun e => match e with
+    | .w _ dc lens bytes =>
+      (if dc = 0 then
+        (if lens.all (fun l => l.1 ≤ 1) then [] else
+          [s!"site={site} reason=command-transfer-not-single-byte got={(lens.map (·.1)).foldl max 0}bytes-with-dc-low:{hexOf (bytes.take 4)} want=1"])
+       else if dc = 3 then [] else
+        [s!"site={site} reason=dc-lines-disagree got=d{dc} want=d0-or-d3"]) ++
+      (if lens.all (fun l => l.1 ≤ 4096) then [] else
+        [s!"site={site} reason=transfer-too-long got={(lens.map (·.1)).foldl max 0} want=<=4096"])
+    | _ => []
+
+def c10Verdicts (sc : Scenario) (t : List BOp) : Nat × List String :=
+  let rec go : List (List String) → List BOp → Nat → Nat → List String → Nat × List String
+    | a :: as, o :: os, k, n, acc => go as os (k + 1) (n + 1) (acc ++ (c10B a o).map (· ++ s!" op={k}"))
+    | _, _, _, n, acc => (n, acc)
+  go sc.ops t 0 0 []
+
+end EpdVerif.Big
